@@ -210,6 +210,8 @@ impl<'a> Visitor<'a> {
 
     // todo: we really don't have to return Option<Value> from all of these children
     pub(crate) fn visit_stmt(&mut self, stmt: AstStmt) -> SassResult<Option<Value>> {
+        #[cfg(feature = "verif")]
+        crate::verif::step();
         match stmt {
             AstStmt::RuleSet(ruleset) => self.visit_ruleset(ruleset),
             AstStmt::Style(style) => self.visit_style(style),
@@ -1869,6 +1871,8 @@ impl<'a> Visitor<'a> {
 
         let mut i = from;
         'outer: while i != to {
+            #[cfg(feature = "verif")]
+            crate::verif::step();
             self.env.scopes_mut().insert_var_last(
                 for_stmt.variable.node,
                 Value::Dimension(SassNumber {
@@ -2235,6 +2239,8 @@ impl<'a> Visitor<'a> {
         span: Span,
         run: R,
     ) -> SassResult<V> {
+        #[cfg(feature = "verif")]
+        let _verif_call_guard = crate::verif::enter_call();
         let mut evaluated = self.eval_maybe_args(arguments, span)?;
 
         let mut name = func.name().to_string();
@@ -2535,6 +2541,8 @@ impl<'a> Visitor<'a> {
     }
 
     fn visit_expr(&mut self, expr: AstExpr) -> SassResult<Value> {
+        #[cfg(feature = "verif")]
+        crate::verif::step();
         Ok(match expr {
             AstExpr::Color(color) => Value::Color(color),
             AstExpr::Number { n, unit } => Value::Dimension(SassNumber {
